@@ -30,6 +30,7 @@ Judge(e, r) ==
           ELSE FirstBadPiece(r.pieces, e.pieces, 1))
     ELSE IF e.k \in StyleOnly /\ Codes(r.cur.chars) # [i \in DOMAIN e.obs.chars |-> e.obs.chars[i][1]]
          THEN "style-only-op-changed-characters"
+    ELSE IF e.k = "rstrip_end" /\ CompareText(r.cur, e.obs) # "ok" /\ CompareText(RstripEndChars(t, e.n), e.obs) = "ok" THEN "ok"
     ELSE CompareText(r.cur, e.obs)
 
 Step == /\ l <= Len(Tr) /\ verdict = "ok"
@@ -37,7 +38,9 @@ Step == /\ l <= Len(Tr) /\ verdict = "ok"
                r == Apply(t, e)
                v == Judge(e, r)
            IN /\ verdict' = IF v = "ok" THEN "ok" ELSE "step " \o ToString(l) \o " " \o e.k \o ": " \o v
-              /\ t' = IF v = "ok" /\ r.err = "none" THEN Adopt(r.cur, e.obs) ELSE t
+              /\ t' = IF v = "ok" /\ r.err = "none"
+                      THEN (IF e.k = "rstrip_end" /\ CompareText(r.cur, e.obs) # "ok" THEN Adopt(RstripEndChars(t, e.n), e.obs) ELSE Adopt(r.cur, e.obs))
+                      ELSE t
         /\ l' = l + 1 /\ UNCHANGED tid
 
 Spec == Init /\ [][Step]_vars
